@@ -487,7 +487,7 @@ def opes_conf(case):
     return ["colvar {", "  name v0", "  distanceZ {", "    main { atomNumbers 1 }", "    ref { dummyAtom (0,0,0) }",
             "    axis (0,0,1)", "  }", "}",
             "opes_metad {", "  name o", "  colvars v0", "  newHillFrequency %d" % case["pace"], "  barrier 10",
-            "  gaussianSigma 0.125", "  compressionThreshold 0", "  multipleReplicas on", "  sharedFreq %d" % case["pace"], "}"]
+            "  gaussianSigma 0.125", "  fixedGaussianSigma on", "  compressionThreshold 0", "  multipleReplicas on", "  sharedFreq %d" % case["pace"], "}"]
 
 
 def parse_opes(lines):
@@ -504,6 +504,10 @@ def parse_opes(lines):
             while i < len(t) and "=" not in t[i]:
                 h, c, sg = t[i].split(":")
                 d["kernels"].append((h, c, sg))
+                i += 1
+            while i < len(t):
+                k, v = t[i].split("=")
+                d[k] = v
                 i += 1
             return d
     return None
